@@ -332,61 +332,82 @@ example : (simpleCases 22 24 false false ⟨⟨2019, 6, 13⟩, 0⟩ ⟨⟨2019, 
 
 def noFlags : DurFlags := ⟨false, false, false, false, false, false, false⟩
 
-/-- "last / past / previous N <unit>" (the prefix test before the duration, or after it), for EVERY reference and N:
-the range ends at the reference and begins N units earlier; both ends proper; the TIMEX `(begin,end,PT<N><U>)` is
-consistent with the values. -/
+/-- the prefix test before the duration ("last / past / previous N <unit>") or the same test after it -/
+def isPast (f : DurFlags) : Prop := f = { noFlags with prevBefore := true } ∨ f = { noFlags with prevAfter := true }
+
+/-- "next N", "within N", "within the next N", "N <unit> hence / in the future" -/
+def isFuture (f : DurFlags) : Prop :=
+  f = { noFlags with withinBefore := true } ∨ f = { noFlags with futureBefore := true } ∨
+  f = { noFlags with futureAfter := true } ∨ f = { noFlags with futureSuffixAfter := true } ∨
+  f = { noFlags with withinBefore := true, futureBefore := true }
+
+/-- "last / past / previous N <unit>", for EVERY reference and N: the range ends at the reference and begins N units
+earlier; both ends proper; the TIMEX `(begin,end,PT<N><U>)` is consistent with the values. -/
 theorem parse_duration_past (R : DateTime) (hR : proper R) (n k u : Nat)
     (hu : (if u = 72 then some 3600 else if u = 77 then some 60 else if u = 83 then some 1 else none) = some k)
-    (f : DurFlags) (hf : f = { noFlags with prevBefore := true } ∨ f = { noFlags with prevAfter := true })
-    (t : Str) (fb fe pb pe : DateTime)
+    (f : DurFlags) (hf : isPast f) (t : Str) (fb fe pb pe : DateTime)
     (h : parseDuration R (n * k) ([80, 84] ++ natStr n ++ [u]) f = .ok t fb fe pb pe) :
     fe = R ∧ proper fb ∧ val R - val fb = ((n * k : Nat) : Int) ∧ pb = fb ∧ pe = fe ∧
     tripleOK t (some (fmtDT fb)) (some (fmtDT fe)) = true := by
-  unfold parseDuration at h
-  cases hb : addSeconds R (-((n : Int) * (k : Int))) with
-  | none => rcases hf with hf | hf <;> subst hf <;> simp [noFlags, ofOpt, hb] at h
+  have h' : pastRes R (n * k) ([80, 84] ++ natStr n ++ [u]) = .ok t fb fe pb pe := by
+    rcases hf with hf | hf <;> subst hf
+    · rw [← h]; exact (pd_prevBefore R _ _).symm
+    · rw [← h]; exact (pd_prevAfter R _ _).symm
+  unfold pastRes at h'
+  cases hb : addSeconds R (-((n * k : Nat) : Int)) with
+  | none => rw [hb] at h'; simp [ofOpt] at h'
   | some b =>
     have sp := addSeconds_spec R hR.1 _ b hb
-    have hv : val R - val b = ((n * k : Nat) : Int) := by unfold val; push_cast; omega
+    have hv : val R - val b = ((n * k : Nat) : Int) := by unfold val; omega
     have hp : proper b := ⟨sp.1, sp.2.1⟩
     have key := points_triple b R hp hR n k u hu
     rw [decide_eq_true hv] at key
-    rcases hf with hf | hf <;> subst hf <;> simp [noFlags, ofOpt, hb] at h <;>
-      (obtain ⟨h1, h2, h3, h4, h5⟩ := h; subst h1 h2 h3 h4 h5; exact ⟨rfl, hp, hv, rfl, rfl, key⟩)
+    rw [hb] at h'
+    simp only [Option.bind_some, ofOpt, Option.getD_some, Res.ok.injEq] at h'
+    obtain ⟨h1, h2, h3, h4, h5⟩ := h'
+    subst h1 h2 h3 h4 h5
+    exact ⟨rfl, hp, hv, rfl, rfl, key⟩
 
 /-- "next N <unit>", "within (the next) N <unit>", "N <unit> hence / in the future": the range begins at the reference
 and ends N units later; consistent triple. -/
 theorem parse_duration_future (R : DateTime) (hR : proper R) (n k u : Nat)
     (hu : (if u = 72 then some 3600 else if u = 77 then some 60 else if u = 83 then some 1 else none) = some k)
-    (f : DurFlags) (hf : f = { noFlags with withinBefore := true } ∨ f = { noFlags with futureBefore := true } ∨
-      f = { noFlags with futureAfter := true } ∨ f = { noFlags with futureSuffixAfter := true } ∨
-      f = { noFlags with withinBefore := true, futureBefore := true })
-    (t : Str) (fb fe pb pe : DateTime)
+    (f : DurFlags) (hf : isFuture f) (t : Str) (fb fe pb pe : DateTime)
     (h : parseDuration R (n * k) ([80, 84] ++ natStr n ++ [u]) f = .ok t fb fe pb pe) :
     fb = R ∧ proper fe ∧ val fe - val R = ((n * k : Nat) : Int) ∧ pb = fb ∧ pe = fe ∧
     tripleOK t (some (fmtDT fb)) (some (fmtDT fe)) = true := by
-  unfold parseDuration at h
-  cases he : addSeconds R ((n : Int) * (k : Int)) with
-  | none => rcases hf with hf | hf | hf | hf | hf <;> subst hf <;> simp [noFlags, ofOpt, he] at h
+  have h' : futureRes R (n * k) ([80, 84] ++ natStr n ++ [u]) = .ok t fb fe pb pe := by
+    rcases hf with hf | hf | hf | hf | hf <;> subst hf
+    · rw [← h]; exact (pd_within R _ _).symm
+    · rw [← h]; exact (pd_future R _ _).symm
+    · rw [← h]; exact (pd_futureAfter R _ _).symm
+    · rw [← h]; exact (pd_futureSuffix R _ _).symm
+    · rw [← h]; exact (pd_withinNext R _ _).symm
+  unfold futureRes at h'
+  cases he : addSeconds R ((n * k : Nat) : Int) with
+  | none => rw [he] at h'; simp [ofOpt] at h'
   | some e =>
     have sp := addSeconds_spec R hR.1 _ e he
-    have hv : val e - val R = ((n * k : Nat) : Int) := by unfold val; push_cast; omega
+    have hv : val e - val R = ((n * k : Nat) : Int) := by unfold val; omega
     have hp : proper e := ⟨sp.1, sp.2.1⟩
     have key := points_triple R e hR hp n k u hu
     rw [decide_eq_true hv] at key
-    rcases hf with hf | hf | hf | hf | hf <;> subst hf <;> simp [noFlags, ofOpt, he] at h <;>
-      (obtain ⟨h1, h2, h3, h4, h5⟩ := h; subst h1 h2 h3 h4 h5; exact ⟨rfl, hp, hv, rfl, rfl, key⟩)
+    rw [he] at h'
+    simp only [Option.bind_some, ofOpt, Option.getD_some, Res.ok.injEq] at h'
+    obtain ⟨h1, h2, h3, h4, h5⟩ := h'
+    subst h1 h2 h3 h4 h5
+    exact ⟨rfl, hp, hv, rfl, rfl, key⟩
 
-/-- … and when NONE of the prefix / suffix tests succeeds (a duration next to a word the English tests do not know —
-this is how "in den nächsten 3 Stunden" is resolved by the cultures whose tests are not ported) the method still
-succeeds: begin = end = the reference, while the TIMEX carries the duration — a triple that the predicate rejects
-whenever the duration is not zero. For EVERY reference, N and unit. -/
+/-- … and when NONE of the prefix / suffix tests succeeds (a duration next to a word the tests do not know — this is
+how "in den nächsten 3 Stunden" is resolved by the cultures whose tests are not ported: recorded C10 findings) the
+method still succeeds: begin = end = the reference, while the TIMEX carries the duration — a triple that the predicate
+rejects whenever the duration is not zero. For EVERY reference, N and unit. -/
 theorem parse_duration_no_prefix_rejected (R : DateTime) (hR : proper R) (n k u : Nat)
     (hu : (if u = 72 then some 3600 else if u = 77 then some 60 else if u = 83 then some 1 else none) = some k)
     (hn : 0 < n * k) :
     ∃ t, parseDuration R (n * k) ([80, 84] ++ natStr n ++ [u]) noFlags = .ok t R R R R ∧
       tripleOK t (some (fmtDT R)) (some (fmtDT R)) = false := by
-  refine ⟨triple (luisPoint R) (luisPoint R) ([80, 84] ++ natStr n ++ [u]), by simp [parseDuration, noFlags, ofOpt], ?_⟩
+  refine ⟨triple (luisPoint R) (luisPoint R) ([80, 84] ++ natStr n ++ [u]), pd_none R _ _, ?_⟩
   rw [points_triple R R hR hR n k u hu]
   simp only [Int.sub_self, decide_eq_false_iff_not]
   omega
